@@ -20,6 +20,7 @@
 package vchan
 
 import (
+	"bytes"
 	"errors"
 	"fmt"
 	"io"
@@ -77,6 +78,7 @@ type Monitor interface {
 type End struct {
 	Name     string
 	PipeLike bool // Close also unblocks this end's own Recv with a closing error
+	RejectLF bool // like channel.Line: Send refuses (and drops) a record that contains a line feed
 	Spin     int  // Gosched iterations inside each operation
 
 	in, out *queue
@@ -176,6 +178,8 @@ func (e *End) Send(rec []byte) error {
 		if err == nil {
 			err = ErrInjected
 		}
+	} else if e.RejectLF && bytes.IndexByte(cp, '\n') >= 0 {
+		err = errors.New("vchan: message contains split byte")
 	} else {
 		q := e.out
 		q.mu.Lock()
